@@ -96,6 +96,16 @@ class VConst(V):
         return f"VConst({self.what}:{self.py})"
 
 
+class VOpt(V):
+    """Optional value with a symbolic none-flag (used for Optional[record] fields)."""
+
+    def __init__(self, isnone, value):
+        self.isnone, self.value = isnone, value
+
+    def __repr__(self):
+        return f"VOpt({self.isnone},{self.value})"
+
+
 class VRecord(V):
     """Immutable record with statically known fields (NamedTuple, cstruct instance snapshot)."""
 
@@ -178,6 +188,8 @@ def box(v):
     if isinstance(v, VRecord):
         fields, _ = RECORDS[v.cls]
         return Val.VT(mk_vsq([box(v.fields[f]) for f in fields]))
+    if isinstance(v, VOpt):
+        return z3.If(v.isnone, Val.VN, box(v.value))
     raise Unsupported(f"cannot box {v!r}")
 
 
